@@ -18,12 +18,13 @@ confirm)
   cd "$wt"
   mkdir -p purl/tests && cp "$d/demo.rs" purl/tests/demo.rs
   export CARGO_TARGET_DIR=/tmp/wt/confirm-target
-  if cargo test --offline -q -p purl --test demo >/tmp/wt/confirm.log 2>&1; then echo "clean: demo passes"; else echo "clean: demo FAILS (bad mutant)"; tail -20 /tmp/wt/confirm.log; exit 1; fi
+  flags=""; [ -f "$d/demo_flags.txt" ] && flags=$(cat "$d/demo_flags.txt")     # e.g. --features serde
+  if cargo test --offline -q -p purl $flags --test demo >/tmp/wt/confirm.log 2>&1; then echo "clean: demo passes"; else echo "clean: demo FAILS (bad mutant)"; tail -20 /tmp/wt/confirm.log; exit 1; fi
   git apply "$d/patch.diff" || { echo "patch does not apply"; exit 1; }
   rm purl/tests/demo.rs
   if cargo test --workspace --offline -q >/tmp/wt/confirm.log 2>&1; then echo "mutant: existing suite passes"; else echo "mutant: existing suite FAILS (bad mutant)"; grep -E "FAILED|failed|error" /tmp/wt/confirm.log | head; exit 1; fi
   cp "$d/demo.rs" purl/tests/demo.rs
-  if cargo test --offline -q -p purl --test demo >/tmp/wt/confirm.log 2>&1; then echo "mutant: demo PASSES (bad mutant)"; exit 1; else echo "mutant: demo fails (good)"; fi
+  if cargo test --offline -q -p purl $flags --test demo >/tmp/wt/confirm.log 2>&1; then echo "mutant: demo PASSES (bad mutant)"; exit 1; else echo "mutant: demo fails (good)"; fi
   exit 0 ;;
 run)
   p=$1; shift
